@@ -562,3 +562,50 @@ PROPS["C18"] = {
     "outside": "number formatting and parsing (the contract 'float64 round-trips exactly' of encoding/json is assumed), Export/Import table files, gzip, arbitrary byte strings as reader input, ConfigDistribution (reflection driven)",
     "assumptions": ["encoding/json is replaced by a data-model stub: Marshal maps Go values to trees of number/string/bool/null/array/object-by-exported-field-name with the number leaves carried through unchanged, Unmarshal assigns by field name and reports kind mismatches"],
 }
+
+# ----------------------------------------------------------------------------- C12
+def c12_jobs(tier):
+    jobs = []
+    quick = tier == "quick"
+
+    def enc(ds):
+        v = 0
+        for d in reversed(ds):
+            v = v * 4 + d
+        return v
+    vp = [enc(x) for x in ([0, 0, 0], [1, 0, 1], [2, 0, 1], [3, 0, 1])]
+    kinds = [0, 1, 2, 3] if quick else list(range(8))
+    mps = [0, enc([1, 0, 0, 0, 1, 0, 2, 0, 1])]
+    for kind in kinds:
+        for how in range(4):
+            for pa in vp:
+                jobs.append({"func": "verif_C12_vec", "args": [kind, how, 3, pa], "tag": f"vec kind={kind} how={how} pa={pa}"})
+            for vk in ([0, 1, 2, 4, 6] if quick else [0, 1, 2, 3, 4, 5, 6, 7]):
+                if kind in (2, 3, 6, 7) and vk in (3, 7):
+                    continue
+                for pa in (mps if how in (0, 2) else mps[:1]):
+                    jobs.append({"func": "verif_C12_mat", "args": [kind, how, vk, pa], "tag": f"mat kind={kind} how={how} view={vk} pa={pa}"})
+        for pa in vp[:3]:
+            jobs.append({"func": "verif_C12_iter", "args": [kind, 3, pa]})
+        for op in range(6):
+            for pa in (0, enc([1, 0, 0, 1])):
+                jobs.append({"func": "verif_C12_operands", "args": [kind, op, pa, 0 if op == 3 else pa]})
+    for w in range(4):
+        jobs.append({"func": "verif_C12_scalar", "args": [w]})
+    for pa in vp[:3]:
+        jobs.append({"func": "verif_C12_ctor", "args": [3, pa]})
+    return jobs
+
+
+PROPS["C12"] = {
+    "overlay": [RT, VIEWS, SCALAR_COMMON, _scalar_real("Real64"), ("root/zz_verif_c03.go", "zz_verif_c03.go"), ("root/zz_verif_c12.go", "zz_verif_c12.go")],
+    "mode": "fp", "intmode": "int",
+    "jobs": c12_jobs,
+    "reach": ["C12-vec", "C12-mat", "C12-scalar", "C12-iter", "C12-operands", "C12-ctor"],
+    "selftest_vars": ["a", "a.d", "a.h", "v", "v.d", "w", "w.d", "w.h", "u", "u.d", "u.h", "b", "b.d", "f", "g"],
+    "bounds": {"quick": "Clone*/As* of dense and sparse Float64/Real64 vectors (length 3) and matrices (Slice/T views of a 3x3 parent, all slice bounds), Real64/Float64 scalars (jets N=2, order 2), iterator clones; "
+                        "symbolic element values, every position of clone / source mutated with symbolic values; read-only operands of 6 operation groups; index/value constructors",
+               "thorough": "also Float32/Real32 and depth-3 views"},
+    "outside": "algorithm entry points' inputs are checked by the harnesses of C04-C07 (not yet all built); distributions' constructors",
+    "assumptions": ["map iteration order modelled as ascending key order"],
+}
